@@ -34,6 +34,8 @@ type c11Case struct {
 	Keep      string `json:"keep,omitempty"`
 	PruneFrom string `json:"prune_from,omitempty"`
 	Name      string `json:"name,omitempty"` // simplify: hex of the function name
+	// cli: sample-filter options given together with -prune_from / drop_frames
+	Opts map[string]string `json:"opts,omitempty"`
 }
 
 // simplified asks the model for simplifyFunc(name), cached.
@@ -453,13 +455,32 @@ func c11CliEval(c *Ctx, e *c11Env, cs c11Case, res cliOut) {
 			specS = c.Drv.Ask("prune.spec " + e.tbl(drop, p) + " " + e.optTbl(keep, p) + " " + cs.Profile)
 		}
 	}
+	if len(cs.Opts) > 0 {
+		// applyFocus: the sample filters decide on the stacks as fetched (after drop/keep frames),
+		// prune_from comes last
+		q, _ := ParseCanon(cur)
+		ot, ok := optsTok(cs.Opts, q)
+		if !ok {
+			return
+		}
+		rep := c.Drv.Ask("apply.model " + ot + " " + cur)
+		i := strings.Index(rep, " | ")
+		if !strings.HasPrefix(rep, "ok ") || i < 0 {
+			if res.err == "" {
+				c.Disagree("C11/cli-model/filters-"+firstWord(rep), "model rejects the filter options, pprof accepts them", broken, cs)
+			}
+			return
+		}
+		cur = rep[3:i]
+		specS = "" // the prune-only rule does not apply; see the composition oracle below
+	}
 	if cs.PruneFrom != "" {
 		re, err := regexp.Compile(cs.PruneFrom)
 		if err != nil {
 			return
 		}
 		q, _ := ParseCanon(cur)
-		if p.DropFrames == "" {
+		if p.DropFrames == "" && len(cs.Opts) == 0 {
 			specS = c.Drv.Ask("prunefrom.spec " + e.tbl(re, q) + " " + cur)
 			known = hypPFViolated(q, e.lineMatcher(re, nil))
 			knownSig = "C11/prune_from/inlined-location-above-lowest-match"
@@ -478,9 +499,45 @@ func c11CliEval(c *Ctx, e *c11Env, cs c11Case, res cliOut) {
 	}
 	in, _ := ParseCanon(cs.Profile)
 	oracleFailed := false
-	if !unchangedData(viewList(in), res.views) {
-		oracleFailed = true
-		c.Violation("C11/cli/samples-values-labels-changed", "frame dropping through pprof changed the number of samples, their values or labels", cs)
+	if len(cs.Opts) == 0 {
+		if !unchangedData(viewList(in), res.views) {
+			oracleFailed = true
+			c.Violation("C11/cli/samples-values-labels-changed", "frame dropping through pprof changed the number of samples, their values or labels", cs)
+		}
+	} else if p.DropFrames == "" {
+		// composition rule: WHICH samples stay (with their values and labels) is decided by the sample
+		// filters on the unpruned stacks (frame-level rule of C06); prune_from then only shortens stacks.
+		nameOnly := true
+		for k := range cs.Opts {
+			if k != "focus" && k != "ignore" && k != "hide" && k != "show" {
+				nameOnly = false
+			}
+		}
+		if nameOnly {
+			var rx [4]string
+			cands := nameCands(in)
+			for i, k := range []string{"focus", "ignore", "hide", "show"} {
+				re, err := compileOpt(cs.Opts[k])
+				if err != nil {
+					return
+				}
+				rx[i] = rxTok(re, cands)
+			}
+			if spec, ok := splitViews(c.Drv.Ask("name.spec " + strings.Join(rx[:], " ") + " " + cs.Profile)); ok {
+				heads := func(vs []string) []string {
+					out := make([]string, len(vs))
+					for i, v := range vs {
+						out[i], _ = viewFrames(v)
+					}
+					return out
+				}
+				hr, hs := heads(res.views), heads(spec)
+				if strings.Join(hr, "|") != strings.Join(hs, "|") {
+					oracleFailed = true
+					c.Violation("C11/cli/filters-with-prune_from/kept-samples", fmt.Sprintf("pprof -proto %v -prune_from=%q keeps %d samples; the sample filters evaluated on the unpruned stacks keep %d (values/labels %q vs %q)", cs.Opts, cs.PruneFrom, len(hr), len(hs), trunc(strings.Join(hr, "|")), trunc(strings.Join(hs, "|"))), cs)
+				}
+			}
+		}
 	}
 	if specS != "" && !oracleFailed {
 		if spec, ok := splitViews(specS); ok {
@@ -651,7 +708,7 @@ func c11RunCli(bin, dir string, i int, p *profile.Profile, cs c11Case) cliOut {
 	if cs.PruneFrom != "" {
 		extra = append(extra, "-prune_from="+cs.PruneFrom)
 	}
-	return runPprofProto(bin, dir, i, p, nil, extra...)
+	return runPprofProto(bin, dir, i, p, cs.Opts, extra...)
 }
 
 // c11NoExpr: a profile without drop_frames is left untouched by RemoveUninteresting (also when
@@ -679,7 +736,7 @@ func c11NoExpr(c *Ctx, cs c11Case) {
 }
 
 func runC11(c *Ctx) {
-	c.Res.Rule = "profiles with inlined multi-line locations (match at the root-most line, in the middle, at the leaf-most line), locations shared by several samples, unsymbolized locations, empty stacks, functions with empty names and names that simplifyFunc rewrites (leading '.', argument lists, reserved '(anonymous namespace)' / 'operator()'); drop/keep expressions from a list of alternations/classes/wildcards, anchored as RemoveUninteresting does and unanchored for Prune; streams: Prune, RemoveUninteresting, PruneFrom (inputs violating the hypothesis of the _partial theorems on known-finding streams), simplifyFunc through anchored quoted names, no-expression identity, `pprof -proto` on profiles carrying drop_frames/keep_frames and with -prune_from. non-trivial = the expressions match at least one but not all locations in use; distinct by expressions + canonical profile"
+	c.Res.Rule = "profiles with inlined multi-line locations (match at the root-most line, in the middle, at the leaf-most line), locations shared by several samples, unsymbolized locations, empty stacks, functions with empty names and names that simplifyFunc rewrites (leading '.', argument lists, reserved '(anonymous namespace)' / 'operator()'); drop/keep expressions from a list of alternations/classes/wildcards, anchored as RemoveUninteresting does and unanchored for Prune; streams: Prune, RemoveUninteresting, PruneFrom (inputs violating the hypothesis of the _partial theorems on known-finding streams), simplifyFunc through anchored quoted names, no-expression identity, `pprof -proto` on profiles carrying drop_frames/keep_frames and with -prune_from, also combined with focus/ignore/hide/show/tagfocus expressions that match on the leaf side of the prune point (the filters must decide on the unpruned stacks). non-trivial = the expressions match at least one but not all locations in use; distinct by expressions + canonical profile"
 	e := &c11Env{c: c, simp: map[string]string{}}
 	if c.Replay != "" {
 		var cs c11Case
@@ -770,12 +827,64 @@ func runC11(c *Ctx) {
 		return
 	}
 	defer os.RemoveAll(dir)
-	nCli := 300 * c.Scale
+	nCombo := 200 * c.Scale
+	nCli := 300*c.Scale + nCombo
 	cases := make([]c11Case, nCli)
 	profs := make([]*profile.Profile, nCli)
+	plain := map[string]bool{"d1": true, "d2": true, "d3": true, "k1": true, "kd": true, "u1": true, "u2": true, "main": true}
 	for i := range cases {
 		p := genC11Profile(r, true)
 		cs := c11Case{Kind: "cli", Stream: "main"}
+		if i >= nCli-nCombo {
+			// -prune_from (every third case also drop_frames) TOGETHER with sample filters whose
+			// expression matches a frame on the LEAF side of the prune point of some sample
+			cs.Opts = map[string]string{}
+			pf, fe := "", ""
+			for try := 0; try < 20 && pf == ""; try++ {
+				if len(p.Sample) == 0 {
+					break
+				}
+				sm := p.Sample[r.Intn(len(p.Sample))]
+				if len(sm.Location) < 2 {
+					continue
+				}
+				j := 1 + r.Intn(len(sm.Location)-1)
+				lj, li := sm.Location[j], sm.Location[r.Intn(j)]
+				if len(lj.Line) == 0 || len(li.Line) == 0 {
+					continue
+				}
+				nj, ni := lj.Line[r.Intn(len(lj.Line))].Function.Name, li.Line[r.Intn(len(li.Line))].Function.Name
+				if plain[nj] && plain[ni] && nj != ni {
+					pf, fe = "^"+nj+"$", "^"+ni+"$"
+				}
+			}
+			if pf == "" {
+				pf, fe = pick([]string{"d1", "^d", "u", "main"}), pick([]string{"d2", "k1", "u1", "^u", "main"})
+				c.Res.Hit("cli:combo:random-expressions")
+			} else {
+				c.Res.Hit("cli:combo:filter-matches-leaf-side-of-prune-point")
+			}
+			cs.PruneFrom = pf
+			k := []string{"focus", "ignore", "focus", "ignore", "hide", "show"}[i%6]
+			cs.Opts[k] = fe
+			if i%5 == 0 {
+				cs.Opts["tagfocus"] = pick([]string{"k=v", "k=w", "bytes=:50", "bytes=50kb:"})
+			}
+			if i%3 == 0 {
+				p.DropFrames, p.KeepFrames = pick(c11Drops), pick(c11Keeps)
+			}
+			c.Res.Hit("cli:combo:" + optSet(cs.Opts))
+			var buf bytes.Buffer
+			p.Write(&buf)
+			p, err = profile.ParseData(buf.Bytes())
+			if err != nil {
+				c.Res.HarnessError = "generated profile does not round-trip: " + err.Error()
+				return
+			}
+			cs.Profile = Canon(p)
+			cases[i], profs[i] = cs, p
+			continue
+		}
 		switch i % 3 {
 		case 0:
 			p.DropFrames, p.KeepFrames = pick(c11Drops), pick(c11Keeps)
